@@ -175,6 +175,15 @@ func (e *Env) Copy() *Env {
 		}
 	}
 	e.rwMutex.RUnlock()
+	// a value with storage of its own (a struct made by make, ...) is a value: the copy gets storage of its
+	// own as well, a store on one side must not show on the other (maps, slices, pointers stay references)
+	for name, value := range copy.values {
+		if value.CanAddr() && value.CanInterface() {
+			c := reflect.New(value.Type()).Elem()
+			c.Set(value)
+			copy.values[name] = c
+		}
+	}
 	return &copy
 }
 
